@@ -33,6 +33,7 @@ type frameArgs struct {
 	Families       map[string][]string `json:"families"`        // family -> functions allowed to write it directly
 	AllowedUnknown []string            `json:"allowed_unknown"` // functions allowed to write with an unresolved key
 	Bank           map[string][]string `json:"bank"`            // "mint","burn","send" -> functions allowed to call them directly
+	Callers        map[string][]string `json:"callers"`         // function -> the only functions allowed to call it (setters of guarded state)
 	Module         string              `json:"module"`
 }
 
@@ -203,6 +204,60 @@ func (p *Program) staticFrameComplete(cfg *PropConfig, ld LoadSpec) []*Obligatio
 		if len(bad) > 0 {
 			o.Goal = False
 			o.Src = "unexpected writers of store family " + fam + ": " + strings.Join(bad, "; ")
+		}
+		obls = append(obls, o)
+	}
+	// guarded setters: only the listed functions may call them (every call site in the loaded packages is checked;
+	// taking the setter as a value counts as a call from that function)
+	for _, callee := range sortedKeys(args.Callers) {
+		cf := p.funcsByKey[callee]
+		if cf == nil {
+			obls = append(obls, &Obligation{Unit: unitName, Kind: "static", Label: "callers:" + lastName(callee), Goal: False, Src: "guarded function " + callee + " not found"})
+			continue
+		}
+		allowed := map[string]bool{}
+		for _, f := range args.Callers[callee] {
+			allowed[f] = true
+		}
+		var bad []string
+		n := 0
+		x := &Exec{prog: p}
+		for _, ck := range sortedKeys(p.funcsByKey) {
+			fn := p.funcsByKey[ck]
+			if fn.Blocks == nil || strings.HasSuffix(x.pos(fn.Pos()), "_test.go") {
+				continue
+			}
+			for _, b := range fn.Blocks {
+				for _, ins := range b.Instrs {
+					uses := false
+					for _, op := range ins.Operands(nil) {
+						if op != nil && *op == ssa.Value(cf) {
+							uses = true
+						}
+					}
+					if ci, ok := ins.(ssa.CallInstruction); ok && ci.Common().StaticCallee() == cf {
+						uses = true
+					}
+					if !uses {
+						continue
+					}
+					n++
+					// closures count for their enclosing function
+					root := fn
+					for root.Parent() != nil {
+						root = root.Parent()
+					}
+					if !allowed[p.funcKey(root)] {
+						bad = append(bad, fmt.Sprintf("%s (%s)", ck, x.pos(ins.Pos())))
+					}
+				}
+			}
+		}
+		o := &Obligation{Unit: unitName, Kind: "static", Label: "callers:" + lastName(callee), Goal: True,
+			Src: fmt.Sprintf("only %v call %s (%d call sites found)", args.Callers[callee], callee, n)}
+		if len(bad) > 0 {
+			o.Goal = False
+			o.Src = "unexpected callers of " + callee + ": " + strings.Join(bad, "; ")
 		}
 		obls = append(obls, o)
 	}
@@ -662,6 +717,14 @@ func sortedLater(fn *ssa.Function, app *ssa.Call) bool {
 				if sc := in.Call.StaticCallee(); sc != nil {
 					n := sc.String()
 					if strings.HasPrefix(n, "sort.") || strings.HasPrefix(n, "slices.Sort") || strings.Contains(n, ".Sort") || strings.Contains(n, "sortkeys.") {
+						// a sort with a caller-supplied comparison restores a definite order only if that comparison
+						// orders the elements themselves (distinct elements never compare equal): an unstable sort
+						// leaves elements that compare equal in their incoming - here: map - order
+						if n == "sort.Slice" || n == "sort.SliceStable" || strings.HasPrefix(n, "slices.SortFunc") || strings.HasPrefix(n, "slices.SortStableFunc") {
+							if len(in.Call.Args) >= 2 && !plainLess(in.Call.Args[1]) {
+								continue
+							}
+						}
 						return true
 					}
 				}
@@ -926,4 +989,87 @@ func (p *Program) privateHelperOf(key string, allowed map[string]bool, seen map[
 		}
 	}
 	return callers > 0
+}
+
+// plainLess: the comparison closure handed to sort.Slice compares the elements (or fields of them) directly with < or >
+// or through bytes.Compare / strings.Compare, without mapping them through another function first (strings.ToLower,
+// a hash, a length ...), which could make distinct elements compare equal.
+func plainLess(v ssa.Value) bool {
+	var fn *ssa.Function
+	switch c := v.(type) {
+	case *ssa.MakeClosure:
+		fn, _ = c.Fn.(*ssa.Function)
+	case *ssa.Function:
+		fn = c
+	case *ssa.ChangeType:
+		return plainLess(c.X)
+	case *ssa.MakeInterface:
+		return plainLess(c.X)
+	}
+	if fn == nil || fn.Blocks == nil {
+		return false
+	}
+	var direct func(v ssa.Value, d int) bool
+	direct = func(v ssa.Value, d int) bool {
+		if d > 6 {
+			return false
+		}
+		switch t := v.(type) {
+		case *ssa.UnOp:
+			return direct(t.X, d+1)
+		case *ssa.IndexAddr, *ssa.Index, *ssa.Parameter, *ssa.FreeVar:
+			return true
+		case *ssa.FieldAddr:
+			return direct(t.X, d+1)
+		case *ssa.Field:
+			return direct(t.X, d+1)
+		case *ssa.Convert:
+			return direct(t.X, d+1)
+		case *ssa.ChangeType:
+			return direct(t.X, d+1)
+		case *ssa.Slice:
+			return direct(t.X, d+1)
+		case *ssa.Const:
+			return true
+		}
+		return false
+	}
+	ok := true
+	found := false
+	for _, b := range fn.Blocks {
+		for _, ins := range b.Instrs {
+			if c, isCall := ins.(*ssa.Call); isCall {
+				n := ""
+				if sc := c.Call.StaticCallee(); sc != nil {
+					n = sc.String()
+				}
+				switch n {
+				case "bytes.Compare", "strings.Compare", "bytes.Equal":
+					for _, a := range c.Call.Args {
+						if !direct(a, 0) {
+							ok = false
+						}
+					}
+				default:
+					// accessor methods of the elements (x.GetDenom(), addr.String() on the element) are fine only if
+					// they are applied to the element directly; anything else transforms the key
+					for _, a := range c.Call.Args {
+						if !direct(a, 0) {
+							ok = false
+						}
+					}
+					if strings.HasPrefix(n, "strings.To") || strings.HasPrefix(n, "strings.Trim") || strings.Contains(n, "Fold") || n == "" {
+						ok = false
+					}
+				}
+			}
+			if bo, isBin := ins.(*ssa.BinOp); isBin {
+				switch bo.Op {
+				case token.LSS, token.GTR, token.LEQ, token.GEQ:
+					found = true
+				}
+			}
+		}
+	}
+	return ok && found
 }
